@@ -87,6 +87,9 @@ pub struct World {
     pub on_send: Option<Box<dyn FnMut(&[u8], SocketAddr, u64) -> Vec<(u64, Vec<u8>, Option<SocketAddr>)>>>,
     /// advance of the virtual clock per send_to
     pub send_cost_ns: u64,
+    /// how often the receive socket was waited on / read (one recv_probe call must wait at most once and read at most once)
+    pub n_select: usize,
+    pub n_read: usize,
 }
 
 thread_local! {
@@ -259,6 +262,7 @@ impl Socket for SimSocket {
     }
     fn is_readable(&mut self, timeout: Duration) -> IoResult<bool> {
         with(|w| {
+            w.n_select += 1;
             if let Some(k) = w.take_injected(Call::Select) {
                 return Err(IoError::Other(io::Error::from(k), IoOperation::Select));
             }
@@ -289,6 +293,7 @@ impl Socket for SimSocket {
     }
     fn recv_from(&mut self, buf: &mut [u8]) -> IoResult<(usize, Option<SocketAddr>)> {
         with(|w| {
+            w.n_read += 1;
             if let Some(k) = w.take_injected(Call::Read) {
                 return Err(IoError::Other(io::Error::from(k), IoOperation::RecvFrom));
             }
@@ -304,6 +309,7 @@ impl Socket for SimSocket {
     }
     fn read(&mut self, buf: &mut [u8]) -> IoResult<usize> {
         with(|w| {
+            w.n_read += 1;
             if let Some(k) = w.take_injected(Call::Read) {
                 return Err(IoError::Other(io::Error::from(k), IoOperation::Read));
             }
